@@ -67,6 +67,8 @@ STD_ENUMS = {
     'std::cmp::Ordering': [('Less', -1), ('Equal', 0), ('Greater', 1)],
     'std::ops::ControlFlow': [('Continue', 0), ('Break', 1)],
 }
+VARIANT_TESTS = {'std::option::Option::<T>::is_some': frozenset(['Some']), 'std::option::Option::<T>::is_none': frozenset(['None']),
+                 'std::result::Result::<T, E>::is_ok': frozenset(['Ok']), 'std::result::Result::<T, E>::is_err': frozenset(['Err'])}
 UNIVERSES = [frozenset(n for (n, _) in vs) for vs in STD_ENUMS.values()]
 SOME = frozenset(['Some'])
 OPTION = 'std::option::Option'
@@ -372,8 +374,9 @@ class Body:
         """local -> list of (bb, idx, kind, payload); kind in whole|call|partial"""
         if self._defs is None:
             d = defaultdict(list)
+            live = self.live_blocks()
             for b in range(self.nb):
-                if self.is_cleanup(b):
+                if self.is_cleanup(b) or b not in live:
                     continue
                 blk = self.blocks[b]
                 for i, s in enumerate(blk['stmts']):
@@ -1185,6 +1188,9 @@ class Origin:
             return ('aggr', 'std::result::Result', 'Err', (('0', simplify_field(simplify_variant(args[0], 'Err'), '0', None)),))
         if callee == 'std::ops::FromResidual::from_residual' and args and (t.get('arg_tys') or [''])[0].startswith('std::option::Option<'):
             return MK_NONE      # `?` on a None
+        if callee in VARIANT_TESTS and len(args) == 1:
+            # a variant test used as a boolean value: ('isvar', o, names) — the same term a `matches!` / `match .. => true` produces
+            return ('isvar', args[0], VARIANT_TESTS[callee])
         if callee.startswith('std::option::Option::<T>::') and args and depth < 40:
             # Option combinators in normal form (the same term as the equivalent `match` / `if let`)
             o = args[0]
@@ -1245,6 +1251,10 @@ def mk_ite(lit, v1, v2):
                     return mk_minmax('max', x, y)
                 if rel and rel <= frozenset('>='):
                     return mk_minmax('min', x, y)
+    if lit and lit[0] == 'in' and is_const(v1, True) and is_const(v2, False):
+        return ('isvar', lit[1], lit[2])
+    if lit and lit[0] == 'in' and is_const(v1, False) and is_const(v2, True):
+        return mk_not(('isvar', lit[1], lit[2]))
     if is_const(v1, True) and is_const(v2, False) and lit[0] in ('T', 'F'):
         return lit[1] if lit[0] == 'T' else mk_not(lit[1])
     if is_const(v1, False) and is_const(v2, True) and lit[0] in ('T', 'F'):
@@ -1287,6 +1297,8 @@ def mk_not(a):
             return ('cmp', neg[a[1]], a[2], a[3])
         if a[0] == 'const' and isinstance(a[1], bool):
             return ('const', not a[1], None, 'bool')
+        if a[0] == 'isvar' and complement(a[2]):
+            return ('isvar', a[1], complement(a[2]))
     return ('not', a)
 
 
@@ -1445,6 +1457,7 @@ def show(t, depth=0):
     if k == 'try': return 'try(%s)' % s(t[1])
     if k == 'ite': return 'ite(%s ? %s : %s)' % ([(a[0],) + tuple(show(x, depth + 1) if isinstance(x, tuple) else x for x in a[1:]) for a in lit_atoms(t[1])], s(t[2]), s(t[3]))
     if k == 'ovf': return 'ovf(%s)' % s(t[1])
+    if k == 'isvar': return '%s is %s' % (s(t[1]), '|'.join(sorted(t[2])))
     if k == 'lex': return 'lex(%s)' % ', '.join(s(x) for x in t[1])
     if k == 'unknown': return '?%s' % t[1]
     return repr(t)
@@ -1543,6 +1556,12 @@ def _atoms(t, pos):
             return _atoms(t[2], False) + _atoms(t[3], False)
         if t[0] == 'const' and isinstance(t[1], bool):
             return [('const', t[1] == pos)]
+        if t[0] == 'isvar':
+            if pos:
+                return lit_atoms(('in', t[1], t[2]))
+            c = complement(t[2])
+            if c:
+                return lit_atoms(('in', t[1], c))
         if t[0] == 'ite':
             # boolean if-then-else:  T(ite(c, X, false)) = c & X ;  F(ite(c, true, X)) = !c & !X ; ...
             c, a, b = t[1], t[2], t[3]
